@@ -5,7 +5,7 @@ a menu of one-shot events (judged) and perturbation events (not judged: unfinish
 updates, duplex, calls on the sibling, use of a shared inner object).  All histories up to the depth
 bound are explored breadth-first, deduplicated by the canonical state of object + sibling; every
 judged transition must return exactly what the same event returns on a fresh, equally configured
-object, and the library's module-level / class-level state must stay what it was at import."""
+object (computed in a forked child that starts from the import-time state of the library)."""
 import copy
 from mc.engine import HSystem, hsub, canon, library_globals, diff_globals, h8, pristine
 from mc.common import ramp, expander
@@ -79,7 +79,9 @@ class Kind(HSystem):
         return {'o': self._obj(), 's': self.sibling() if self.sibling else None}
 
     def canon(self, st):
-        return (canon(st['o']), canon(st['s']))
+        g = library_globals()
+        changed = tuple((k, h8(g.get(k))) for k in diff_globals(_GLOBALS0['g'], g)) if 'g' in _GLOBALS0 else ()
+        return (canon(st['o']), canon(st['s']), changed)
 
     def events(self, st):
         return list(self.order)
@@ -112,14 +114,10 @@ class Kind(HSystem):
             return ('exc', type(e).__name__)
 
     def judge(self, ctx, hist, ev, res, st):
-        g = library_globals()
-        ch = diff_globals(_GLOBALS0['g'], g)
-        if self.singleton:
-            ch = [c for c in ch if not c.endswith('.' + self.singleton[1])]    # its state is judged through its observations
-        if ch:
-            ctx.fail('C10/%s/library-global-changed/%s' % (self.name, '+'.join(ch)[:200]), 'module and class level state as at import',
-                     'changed after %s' % '>'.join(hist + (ev,)))
-            _GLOBALS0['g'] = g      # report each change once
+        # module-/class-level state is not judged by itself (a correctly keyed cache is harmless); it is part of the
+        # canonical state, so histories that change it are explored further, and it is reported in the evidence
+        if diff_globals(_GLOBALS0['g'], library_globals()):
+            ctx.extra['transitions_that_changed_library_globals'] += 1
         ctx.cmps += 1
         if not self.evs[ev][2]:
             ctx.obs.add(h8(('perturbation', self.name, ev, res)))
@@ -246,6 +244,8 @@ def kinds(tier):
                 ('sibling-dec', lambda o, s: s.dec(ramp(s.blocksize // 8, 9, 5)), True)]
     K['AES-128'] = Kind('AES-128', lambda: AES(ramp(16)), cipher_events(16), sibling=lambda: AES(ramp(32, 3)))
     K['AES-256'] = Kind('AES-256', lambda: AES(ramp(32)), cipher_events(16), sibling=lambda: AES(ramp(16, 3)))
+    K['AES-128-zero-extended-sibling'] = Kind('AES-128-zero-extended-sibling', lambda: AES(ramp(16)), cipher_events(16), sibling=lambda: AES(ramp(16) + bytes(8)))
+    K['AES-256-zero-key-vs-128-zero-key'] = Kind('AES-256-zero-key-vs-128-zero-key', lambda: AES(bytes(32)), cipher_events(16), sibling=lambda: AES(bytes(16)))
     K['DES'] = Kind('DES', lambda: DES(ramp(8, 5, 1)), cipher_events(8), sibling=lambda: DES(ramp(8, 3, 9)))
     K['TDEA'] = Kind('TDEA', lambda: TDEA(ramp(8, 5, 1), ramp(8, 7, 2), ramp(8, 9, 3)), cipher_events(8), sibling=lambda: TDEA(ramp(16, 3, 9)))
     K['Serpent'] = Kind('Serpent', lambda: Serpent(ramp(16)), cipher_events(16), sibling=lambda: Serpent(ramp(32, 3)))
@@ -319,7 +319,7 @@ def depth(tier):
 
 def subchecks():
     return [hsub('histories', systems, depth,
-                 bound='51 object kinds (SHA1/SHA0/SHA2/SHA3/Keccak/MD4/MD5/MD6 x3/Blake x2/Blake2 x2/Skein x4/HMAC x2/TLSH/Nilsimsa/AES x2/DES/TDEA/Serpent/Threefish x2/ECB x2/CBC x2/CTR/CTS x2/Salsa20/Chacha/crc and the module singletons keccak_256, blake256, blake2b, blake2s, tlsh), each with 4-9 events (one-shot calls incl. per-call options and calls that raise; perturbations: unfinished updates, duplex, suspended keystream generators, sibling instances, shared inner objects); all histories to depth 3 (thorough 5), deduplicated by the canonical state of object + sibling; library globals compared with their import-time snapshot after every transition')]
+                 bound='53 object kinds (SHA1/SHA0/SHA2/SHA3/Keccak/MD4/MD5/MD6 x3/Blake x2/Blake2 x2/Skein x4/HMAC x2/TLSH/Nilsimsa/AES x2/DES/TDEA/Serpent/Threefish x2/ECB x2/CBC x2/CTR/CTS x2/Salsa20/Chacha/crc and the module singletons keccak_256, blake256, blake2b, blake2s, tlsh), each with 4-9 events (one-shot calls incl. per-call options and calls that raise; perturbations: unfinished updates, duplex, suspended keystream generators, sibling instances, shared inner objects); all histories to depth 3 (thorough 5), deduplicated by the canonical state of object + sibling; the module- and class-level state of the library is part of the canonical state (histories that change it are explored further) and reference answers come from forked children that start from the import-time state')]
 
 
 RULE = 'BFS over call histories per object kind; an observation is the returned bytes or the exception class; distinct_nontrivial counts distinct (kind,event,result) observations'
